@@ -44,16 +44,32 @@ const (
 	sentinel     = 0xA5
 )
 
+// The hash constructor / block cipher and key size are instantiation inputs:
+// every hash function of SP 800-90A rev.1 table 2 (SHA-1, SHA-224, SHA-256,
+// SHA-384, SHA-512, SHA-512/224, SHA-512/256) plus SM3 (GM/T 0105) for both
+// hash-based mechanisms, and SM4 / AES-128/192/256 for CTR_DRBG (the library
+// only offers the variant with derivation function). The constructors reject
+// no hash or cipher; for anything outside the tables (MD5, SHA-3, 64-bit block
+// ciphers) the standards define no seedlen and nothing is asserted. The
+// model's outlen / seedlen / blocklen come from the tables by hash identity
+// (hashPrims), never from the library.
 var mechs = []mechSpec{
 	{"hash-sm3", "hash", "sm3"},
 	{"hash-sha1", "hash", "sha1"},
+	{"hash-sha224", "hash", "sha224"},
 	{"hash-sha256", "hash", "sha256"},
 	{"hash-sha384", "hash", "sha384"},
 	{"hash-sha512", "hash", "sha512"},
+	{"hash-sha512_224", "hash", "sha512_224"},
+	{"hash-sha512_256", "hash", "sha512_256"},
 	{"hmac-sm3", "hmac", "sm3"},
 	{"hmac-sha1", "hmac", "sha1"},
+	{"hmac-sha224", "hmac", "sha224"},
 	{"hmac-sha256", "hmac", "sha256"},
+	{"hmac-sha384", "hmac", "sha384"},
 	{"hmac-sha512", "hmac", "sha512"},
+	{"hmac-sha512_224", "hmac", "sha512_224"},
+	{"hmac-sha512_256", "hmac", "sha512_256"},
 	{"ctr-sm4", "ctr", "sm4"},
 	{"ctr-aes128", "ctr", "aes128"},
 	{"ctr-aes192", "ctr", "aes192"},
@@ -87,8 +103,14 @@ func libHash(prim string) func() hash.Hash {
 		return sm3.New
 	case "sha1":
 		return sha1.New
+	case "sha224":
+		return sha256.New224
 	case "sha256":
 		return sha256.New
+	case "sha512_224":
+		return sha512.New512_224
+	case "sha512_256":
+		return sha512.New512_256
 	case "sha384":
 		return sha512.New384
 	case "sha512":
@@ -584,10 +606,17 @@ func drawOp(t *rapid.T, m mechSpec, gm bool, pReseed int) opT {
 	return o
 }
 
+// pickMech draws a mechanism uniformly (rapid's SampledFrom favours the first
+// elements; every hash / cipher must get its share of the cases).
+func pickMech(t *rapid.T, list []mechSpec) mechSpec {
+	u := rapid.Uint64().Draw(t, "mechSel")
+	return list[gen.Mix(u, 0xC17)%uint64(len(list))]
+}
+
 func genSeq(kind string) func(*rapid.T) seqCase {
 	fam := family(kind)
 	return func(t *rapid.T) seqCase {
-		m := rapid.SampledFrom(fam).Draw(t, "mech")
+		m := pickMech(t, fam)
 		gm := rapid.Bool().Draw(t, "gm")
 		c := seqCase{Mech: m.Name, GM: gm, Level: "test"}
 		c.Wrap = rapid.Bool().Draw(t, "wrap")
@@ -784,9 +813,6 @@ type capCase struct {
 func TestC17_InputCaps(t *testing.T) {
 	h.Sweep(t, h.P{Name: "input-caps"}, func(emit func(capCase)) {
 		for _, m := range mechs {
-			if m.Prim == "sha1" || m.Prim == "sha384" || m.Prim == "aes192" {
-				continue
-			}
 			for _, gm := range []bool{false, true} {
 				for _, w := range []string{"entropy", "nonce", "personalization", "reseed-entropy", "reseed-additional"} {
 					emit(capCase{m.Name, gm, w})
